@@ -181,6 +181,16 @@ func schemaContexts() []SchemaCtx {
 		{"allOf", func(in J, b *defBuilder) J {
 			return J{"allOf": A{J{"type": "object", "properties": J{"p": in}}, J{"type": "object", "required": A{"z"}, "properties": J{"z": J{"type": "string"}}}}}
 		}},
+		// property counts on an object that declares properties and says nothing about additionalProperties
+		{"props+minProps", func(in J, b *defBuilder) J {
+			return J{"type": "object", "minProperties": 2, "properties": J{"p": in, "q": J{"type": "string"}}}
+		}},
+		{"props+maxProps", func(in J, b *defBuilder) J {
+			return J{"type": "object", "maxProperties": 1, "properties": J{"p": in, "q": J{"type": "string"}}}
+		}},
+		{"allOf+req", func(in J, b *defBuilder) J { // the member property is required in its inline allOf member
+			return J{"allOf": A{J{"type": "object", "required": A{"p"}, "properties": J{"p": in}}, J{"type": "object", "properties": J{"z": J{"type": "string"}}}}}
+		}},
 		{"refprop", func(in J, b *defBuilder) J {
 			return J{"type": "object", "required": A{"p"}, "properties": J{"p": J{"$ref": "#/definitions/" + b.addAux(in)}}}
 		}},
@@ -656,7 +666,7 @@ func validationErrors(schema J, root J, data interface{}) string {
 // leaves. These are the depth-3 shapes (map of arrays of objects, objects in arrays in additional properties
 // ...) that the general grammar only reaches at depth 2.
 func EnumerateStackDefs(prefix string, minLen, maxLen int) []DefCase {
-	names := []string{"array", "map", "arrayprop", "mapprop", "props+addl", "reqprop", "optprop", "ref"}
+	names := []string{"array", "map", "arrayprop", "mapprop", "props+addl", "reqprop", "optprop", "ref", "allOf+req"}
 	byName := map[string]SchemaCtx{}
 	for _, c := range schemaContexts() {
 		byName[c.Name] = c
